@@ -30,6 +30,10 @@ CHECKS = {
    text="Exploration: each run delivers one exchange under a sampled tap configuration to the HTTP or unified analyzer (per-packet path or the real sequential loop) and checks: reported iff the reference reports it and equal to it, at most once per direction, attributed to the sender, and never before the head (generator's head length, not the parser's) is contiguously present. Violation classes are separated by cause (wrap, non-contiguous, early, order, segmentation, direction, duplicate-report).",
    note="Reference = same code on the in-order one-segment delivery at ISN 1000/5000 (so an error shared by every delivery is invisible here; C05/C16 territory). Retransmitted duplicates are not injected: the statement quantifies over divisions, origins and orders. Deliveries stay inside the 60 s flow TTL.",
    design="4/C09"),
+ "C15": dict(engine="netsim", technique="deterministic simulation: seeded traces of well-formed and malformed frames (Ethernet/raw/NULL 0x1e/AF loopback framing, IPv4 IHL 0..15, total-length/protocol/ethertype/version lies, truncation) x generated FilterConfigs; filtered run vs unfiltered run on the admitted sub-trace at the same simulated times",
+   text="Exploration: filters are generated from the trace's own endpoints so that each sub-filter matches about half of them; all four analyzers (the unified one through its real packet loop). Checked per packet: nothing is reported for endpoints the filter rejects (endpoints as the analyzer's own parser assigns them), and every admitted packet yields exactly what the unfiltered analyzer yields on the admitted sub-trace.",
+   note="admit(p) is the repository's own FilterConfig::should_process applied to the analyzer's view of the packet (C14, the predicate's truth table, is not claimed). Packets whose endpoints the analyzer does not define (non-TCP, unparseable) are kept in the sub-trace (fail-open, as documented).",
+   design="4/C15"),
  "C17": dict(engine="netsim", technique="deterministic simulation: seeded + enumerated chunkings of generated HTTP/2 connection starts through the incremental extractor; history oracle + reference model of the Akamai format computed from the generator's structure",
    text="Exploration: frame sequences (settings incl. unknown ids, WINDOW_UPDATE/PRIORITY before and after SETTINGS, HEADERS with PADDED/PRIORITY/CONTINUATION, with/without preface) are drawn by seed; every single cut of fixed short streams is enumerated, multi-way chunkings sampled. Checked: at most one report, on the chunk completing the first SETTINGS frame, equal to the one-shot result on that prefix, and the one-shot result equal to an independent reference model string and SHA-256 prefix.",
    note="The reference model is 30 lines of harness code over the generator's structure (not over parsed bytes). An empty first SETTINGS frame is treated as unspecified by the statement: only incremental == one-shot is required there.",
